@@ -102,6 +102,9 @@ type Config struct {
 	Trace      bool
 	EarlyTicks bool // offer "advance the clock" as a cost-1 alternative while threads are enabled
 	Race       bool // maintain vector clocks and check Rd/Wr accesses
+	// OnStep, when set, runs at every scheduling point before the next operation is
+	// chosen (all earlier operations are complete): harness invariants / sampling.
+	OnStep func(x *Exec)
 	// State caching (optional): Visited maps a state key to the largest remaining
 	// budget it was expanded with; Bound is the deviation bound of this run.
 	Visited map[uint64]int8
@@ -458,6 +461,9 @@ func Op(desc string, o *Obj, mode Mode, ready func() bool) {
 	t := x.cur
 	if x.aborting {
 		runtime.Goexit()
+	}
+	if x.cfg.OnStep != nil {
+		x.cfg.OnStep(x)
 	}
 	// fast path: a single live thread that is enabled and nothing else to choose
 	if x.live == 1 && x.steps < x.cfg.MaxSteps && (ready == nil || ready()) && !(x.cfg.EarlyTicks && x.hasDeadline()) {
